@@ -95,6 +95,182 @@ impl vp_circ::e2::OpVisitor for VisitCheck {
     }
 }
 
+// ---------------------------------------------------------------------------
+// the core decomposition chip called directly (its limb sizes and bit lengths are chosen by
+// NativeGadget in multiples only; the chip's own contract also covers the other combinations)
+
+mod core_decomp {
+    use std::collections::HashMap;
+
+    use midnight_circuits::{
+        field::{
+            decomposition::{chip::P2RDecompositionChip, instructions::CoreDecompositionInstructions},
+            NativeChip, NativeGadget,
+        },
+        instructions::*,
+        testing_utils::FromScratch,
+        types::{AssignedNative, ComposableChip},
+    };
+    use midnight_proofs::{
+        circuit::{Layouter, Value},
+        plonk::{Column, ConstraintSystem, Error, Instance},
+    };
+    use num_bigint::BigUint;
+    use num_traits::{One, Zero};
+    use serde::{Deserialize, Serialize};
+    use vp_circ::{
+        e2::{big_to_f, f_to_big, Fault, Outcome, F},
+        ops_hash::{complete_and_s1, run_target, Inst, S1Mode, ScrT, ScratchOp},
+    };
+    use vpcore::{CaseResult, Failure, SplitMix, Verdict};
+
+    type NG = NativeGadget<F, P2RDecompositionChip<F>, NativeChip<F>>;
+
+    #[derive(Clone, Debug, Serialize, Deserialize)]
+    pub struct CoreDecomp {
+        pub bit_length: usize,
+        pub limb_size: usize,
+    }
+
+    impl CoreDecomp {
+        fn n_limbs(&self) -> usize {
+            self.bit_length.div_ceil(self.limb_size)
+        }
+        /// exclusive bound of limb i
+        fn limb_bound(&self, i: usize) -> BigUint {
+            let last = self.bit_length % self.limb_size;
+            if i + 1 == self.n_limbs() && last != 0 {
+                BigUint::one() << last
+            } else {
+                BigUint::one() << self.limb_size
+            }
+        }
+    }
+
+    impl ScratchOp for CoreDecomp {
+        type Config = <NG as FromScratch<F>>::Config;
+        fn name(&self) -> String {
+            format!("decompose_fixed_limb_size(bit_length={},limb_size={})", self.bit_length, self.limb_size)
+        }
+        fn configure(meta: &mut ConstraintSystem<F>, inst: &[Column<Instance>; 2]) -> Self::Config {
+            NG::configure_from_scratch(meta, inst)
+        }
+        fn synthesize(&self, config: &Self::Config, l: &mut impl Layouter<F>, x: Value<Vec<BigUint>>) -> Result<(), Error> {
+            let ng = NG::new_from_scratch(config);
+            // the chip itself (table of 8-bit values, as NativeGadget's FromScratch instance)
+            let chip = P2RDecompositionChip::<F>::new(config, &8);
+            let xa: AssignedNative<F> = ng.assign(l, x.map(|x| big_to_f(&x[0])))?;
+            ng.constrain_as_public_input(l, &xa)?;
+            let limbs = chip.decompose_fixed_limb_size(l, &xa, self.bit_length, self.limb_size)?;
+            for limb in &limbs {
+                ng.constrain_as_public_input(l, limb)?;
+            }
+            chip.load(l)
+        }
+        fn reference(&self, x: &[BigUint]) -> Option<Vec<F>> {
+            if x[0].bits() as usize > self.bit_length {
+                return None;
+            }
+            let mask = (BigUint::one() << self.limb_size) - 1u32;
+            let mut v = vec![big_to_f(&x[0])];
+            for i in 0..self.n_limbs() {
+                v.push(big_to_f(&((&x[0] >> (i * self.limb_size)) & &mask)));
+            }
+            Some(v)
+        }
+        fn n_input_scalars(&self) -> usize {
+            1
+        }
+        fn judge(&self, public: &[F], _observed: Option<&[BigUint]>) -> bool {
+            if public.len() != 1 + self.n_limbs() {
+                return false;
+            }
+            let x = f_to_big(&public[0]);
+            let mut sum = BigUint::zero();
+            for i in 0..self.n_limbs() {
+                let limb = f_to_big(&public[1 + i]);
+                if limb >= self.limb_bound(i) {
+                    return false;
+                }
+                sum += limb << (i * self.limb_size);
+            }
+            sum == x && (x.bits() as usize) <= self.bit_length
+        }
+        fn classify(&self, _x: &[BigUint], public: &[F], _observed: Option<&[BigUint]>) -> Option<String> {
+            let last = f_to_big(public.last()?);
+            Some(if last >= self.limb_bound(self.n_limbs() - 1) { "most-significant-limb-out-of-range".into() } else { "wrong-decomposition".into() })
+        }
+    }
+
+    #[derive(Clone, Debug, Serialize, Deserialize)]
+    pub struct Item {
+        pub op: CoreDecomp,
+        pub seed: u64,
+    }
+
+    pub fn items(quick: bool, seed: u64) -> Vec<Item> {
+        let mut rng = SplitMix(seed ^ 0xc0de);
+        let mut v = vec![];
+        // limb sizes below, at and above the table width (8); bit lengths that are and are not multiples
+        let sizes: &[usize] = if quick { &[3, 8, 13, 16] } else { &[1, 3, 5, 8, 9, 13, 16, 20, 32] };
+        for &ls in sizes {
+            for bl in [ls, 2 * ls, 2 * ls + 1, 3 * ls - 1, ls + ls / 2 + 1] {
+                if bl == 0 || bl > 120 {
+                    continue;
+                }
+                v.push(Item { op: CoreDecomp { bit_length: bl, limb_size: ls }, seed: rng.next_u64() });
+            }
+        }
+        v.dedup_by_key(|i| i.op.name());
+        v
+    }
+
+    pub fn check(it: &Item) -> CaseResult {
+        let op = &it.op;
+        let t = ScrT(op.clone());
+        let mut rng = SplitMix(it.seed);
+        let top = BigUint::one() << op.bit_length;
+        let rounded = BigUint::one() << (op.n_limbs() * op.limb_size);
+        // in-domain inputs: complete, wrong claims rejected
+        for x in [BigUint::zero(), &top - 1u32, &top >> 1, BigUint::from_bytes_le(&rng.bytes(24)) % &top] {
+            complete_and_s1(&t, &[x], rng.next_u64(), S1Mode::All)?;
+        }
+        // inputs outside the domain (up to the bit length rounded up to whole limbs, and beyond):
+        // honest synthesis and every single changed assignment must be refused
+        let mut outside = vec![top.clone(), &top + 1u32, &rounded + 5u32];
+        if rounded > top {
+            outside.push(&rounded - 1u32);
+            outside.push((&top + &rounded) >> 1);
+        }
+        let n_pub = 1 + op.n_limbs();
+        let mut faults = 0;
+        for x in outside {
+            let x = [x];
+            let honest = run_target(&t, &x, Inst::ReadBack(n_pub), &HashMap::new())?;
+            if honest.outcome.accepted() {
+                return Err(Failure::new(format!("{}:accepts-out-of-domain-input", op.name()), format!("x = {} (>= 2^{}) is accepted, exposing {:?}", x[0], op.bit_length, honest.public)));
+            }
+            let n = honest.log.len();
+            for i in 0..n {
+                for f in [Fault::Add(F::from(1)), Fault::Add(F::from(1u64 << (op.bit_length % op.limb_size).max(1))), Fault::Set(F::from(0)), Fault::Add(-F::from(1))] {
+                    let r = run_target(&t, &x, Inst::ReadBack(n_pub), &HashMap::from([(i, f)]))?;
+                    faults += 1;
+                    if let Outcome::Accept = r.outcome {
+                        if !op.judge(&r.public, None) {
+                            let cls = op.classify(&x, &r.public, None).unwrap_or_default();
+                            return Err(Failure::new(
+                                format!("{}:unsound:S2:{cls}", op.name()),
+                                format!("x = {} is outside the domain (>= 2^{}); with assignment #{i} changed ({f:?}) the circuit is satisfied, exposing {:?}", x[0], op.bit_length, r.public),
+                            ));
+                        }
+                    }
+                }
+            }
+        }
+        Ok(Verdict::nontrivial(if op.limb_size > 8 { "limbs-wider-than-table" } else { "limbs-within-table" }).with(if op.bit_length % op.limb_size == 0 { "whole-limbs" } else { "partial-top-limb" }).with(format!("faults:{}", if faults >= 100 { "100+" } else { "<100" })))
+    }
+}
+
 fn main() {
     if std::env::var("C04_VISIT").is_ok() {
         let mut v = VisitCheck { ops: 0, tuples: 0, bad: vec![] };
@@ -236,6 +412,14 @@ fn main() {
             }
         };
         let targeted = || {
+            p.enumerate(
+                "core-decomposition",
+                "P2RDecompositionChip::decompose_fixed_limb_size called directly, limb sizes below / at / above the table width and bit lengths that are or are not whole numbers of limbs: complete and S1 on in-domain values (0, 2^b-1, 2^(b-1), random); for values >= 2^b (up to and beyond the length rounded up to whole limbs) the honest synthesis and every single changed assignment (+1, +2^(b mod limb), 0, -1) must not yield an accepted run exposing a decomposition outside the contract; every case non-trivial",
+                core_decomp::items(quick, p.seed),
+                16,
+                false,
+                core_decomp::check,
+            );
             // (3) F18: chunk sizes >= 64 bits, separate so that the main sub-checks keep going
             let ops18 = f18_ops();
             let mut rng = SplitMix(vpcore::derive_seed(&["C04", "f18"], p.seed));
